@@ -153,21 +153,47 @@ def mapStep (m : MapSt) (op : GOp) : Option (MapSt × GRet) :=
 
 def map : Spec MapSt GOp GRet := detSpec [] mapStep
 
-/-- Ordered containers whose `extract_min` / `extract_max` are only required (C15) to return a key that was
-    present, and empty only if the container was empty at some instant: the returned item is removed,
-    whichever present key it is.  The remaining clause of C15 ("no key present throughout the call is
-    smaller / larger") is a real-time condition on the history and is judged by the harness oracle. -/
-def mapRelaxedNext (m : MapSt) (op : GOp) (r : GRet) : Option MapSt :=
+/-! ### Concurrent set / map specification.
+    libcds runs the user functor of `update` / `find` / `erase` on the item outside the operation's
+    linearization point ("func must guarantee that during changing no any other modifications could be made on
+    this item by concurrent threads"), so a payload written by `update` on an EXISTING key becomes visible at
+    some later instant, possibly never (the item may be erased first).  The concurrent specification therefore
+    keeps, per key, the set of payloads that may still be observed: `update` of an existing key adds its payload
+    to that set.  Everything about KEYS (presence, uniqueness, return flags) is as strict as in `mapStep`.
+    `relaxMinMax` additionally lets `extract_min` / `extract_max` remove any present key (C15's wording); the
+    real-time clause is judged by the harness oracle. -/
+
+def mkeys (m : MapSt) : List Int := (m.map (·.1)).eraseDups
+def mhas (m : MapSt) (k : Int) : Bool := m.any (fun e => e.1 == k)
+
+def mapConcNext (relaxMinMax : Bool) (m : MapSt) (op : GOp) (r : GRet) : Option MapSt :=
   match op.name, op.args, r with
+  | "insert", [k, v], [1] => if mhas m k then none else some ((k, v) :: m)
+  | "insert", [k, _], [0] => if mhas m k then some m else none
+  | "update", [k, v, _], [1, 0] => if mhas m k then some ((k, v) :: m) else none
+  | "update", [k, v, allow], [1, 1] => if !mhas m k ∧ allow ≠ 0 then some ((k, v) :: m) else none
+  | "update", [k, _, allow], [0, 0] => if !mhas m k ∧ allow = 0 then some m else none
+  | "upsert_keep", [k, _, _], [1, 0] => if mhas m k then some m else none
+  | "upsert_keep", [k, v, allow], [1, 1] => if !mhas m k ∧ allow ≠ 0 then some ((k, v) :: m) else none
+  | "upsert_keep", [k, _, allow], [0, 0] => if !mhas m k ∧ allow = 0 then some m else none
+  | "erase", [k], [1, v] => if (k, v) ∈ m then some (merase m k) else none
+  | "erase", [k], [0] => if mhas m k then none else some m
+  | "extract", [k], [1, v] => if (k, v) ∈ m then some (merase m k) else none
+  | "extract", [k], [0] => if mhas m k then none else some m
+  | "find", [k], [1, v] => if (k, v) ∈ m then some m else none
+  | "find", [k], [0] => if mhas m k then none else some m
+  | "contains", [k], [1] => if mhas m k then some m else none
+  | "contains", [k], [0] => if mhas m k then none else some m
   | "extract_min", [], [0] => if m.isEmpty then some m else none
   | "extract_max", [], [0] => if m.isEmpty then some m else none
-  | "extract_min", [], [1, k, v] => if mfind m k = some v then some (merase m k) else none
-  | "extract_max", [], [1, k, v] => if mfind m k = some v then some (merase m k) else none
-  | _, _, _ => match mapStep m op with
-    | some (m', r') => if r = r' then some m' else none
-    | none => none
+  | "extract_min", [], [1, k, v] =>
+    if (k, v) ∈ m ∧ (relaxMinMax ∨ m.all (fun e => decide (k ≤ e.1))) then some (merase m k) else none
+  | "extract_max", [], [1, k, v] =>
+    if (k, v) ∈ m ∧ (relaxMinMax ∨ m.all (fun e => decide (e.1 ≤ k))) then some (merase m k) else none
+  | _, _, _ => none
 
-def mapRelaxed : Spec MapSt GOp GRet := { init := [], next := mapRelaxedNext }
+def mapConc : Spec MapSt GOp GRet := { init := [], next := mapConcNext false }
+def mapRelaxed : Spec MapSt GOp GRet := { init := [], next := mapConcNext true }
 
 /-! ### Bag (free lists, pools): `put x`, `get → x` for any `x` present, `get → none`
     only when empty. -/
